@@ -23,6 +23,9 @@ LEVEL_TEXT = (
     "entries) is built in 2 declaration orders; initial conditions, assignment-defined parameter values, Simulator.y0, "
     "the derived-parameter / derived-variable classification and all values at 3 supplied states x 2 times are compared "
     "with a reachability analysis and the reference evaluator."
+    " Added: coefficient-table reads between states, a simulator override that must stay local, a simulation "
+    "whose result views are read, and then edits of a rate law, a derived function, a parameter and an initial "
+    "value in turn - everything resolved at t=0 must follow the edited description. "
 )
 LEVEL_NOTE = "trusted: mc/refeval.py (self-tested); prime-weighted affine functions make every mis-resolution visible"
 RULE = (
